@@ -66,6 +66,7 @@ type spvVec struct {
 	Why   struct {
 		C03          bool   `json:"c03"`
 		C04          bool   `json:"c04"`
+		Time         bool   `json:"time"`
 		RespIssuer   bool   `json:"respIssuer"`
 		Status       bool   `json:"status"`
 		Dest         bool   `json:"dest"`
@@ -412,7 +413,10 @@ func spvJudge(rep *Report, prop string, c *spvCase, o spvObs) {
 	}
 	// which clauses of *this* property are at stake
 	mine := func() (mustReject bool) {
-		if prop == "C03" {
+		switch prop {
+		case "C02":
+			return v.Why.Time
+		case "C03":
 			return v.Why.C03
 		}
 		return v.Why.C04
@@ -428,6 +432,8 @@ func spvJudge(rep *Report, prop string, c *spvCase, o spvObs) {
 	case o.Accepted && mine:
 		what := "response accepted although "
 		switch {
+		case prop == "C02":
+			what += "an instant is an hour outside its window (Response or Assertion IssueInstant, or a subject confirmation's NotOnOrAfter)"
 		case prop == "C03" && v.Why.RespIssuer:
 			what += "the Response Issuer is not the IdP entity ID"
 		case prop == "C03" && v.Why.Status:
@@ -509,11 +515,13 @@ func spvKey(prop string, v *spvVec) string {
 	return prop + ":" + hashKey(string(b1)+string(b2))
 }
 
-func runSPValidate(t *testing.T, prop string) {
+func runSPValidate(t *testing.T, prop string) { runSPValidateFile(t, prop, "vectors.ndjson", prop) }
+
+func runSPValidateFile(t *testing.T, prop, file, family string) {
 	rep := NewReport(prop)
 	defer rep.Finish(t)
-	rep.Rule = "every terminal state of spec/SPValidate.tla (family " + prop + ") is concretised (random near-miss strings per class, random request IDs order) as a signed Response / ArtifactResponse and run through ParseXMLResponse / ParseResponse (POST form, artifact resolution over a fake resolver); non-trivial = class MustAccept or MustReject for this property's clauses"
-	lines := loadLines(t, "vectors.ndjson")
+	rep.Rule = "every terminal state of spec/SPValidate.tla (family " + family + ") is concretised (random near-miss strings per class, random request IDs order) as a signed Response / ArtifactResponse and run through ParseXMLResponse / ParseResponse (POST form, artifact resolution over a fake resolver); non-trivial = class MustAccept or MustReject for this property's clauses"
+	lines := loadLines(t, file)
 	if len(lines) == 0 {
 		rep.Break("no vectors")
 		return
@@ -542,6 +550,14 @@ func runSPValidate(t *testing.T, prop string) {
 			if cls == "MustReject" && ((prop == "C03" && !v.Why.C03) || (prop == "C04" && !v.Why.C04)) {
 				cls = "DontCare" // rejected for the sister property's reason
 			}
+			if prop == "C02" {
+				switch {
+				case v.Why.Time:
+					cls = "MustReject"
+				case cls == "MustReject":
+					cls = "DontCare"
+				}
+			}
 			rep.Eval(cls, k)
 			rep.Trace(1)
 			spvJudge(rep, prop, c, o)
@@ -555,7 +571,12 @@ func runSPValidate(t *testing.T, prop string) {
 	}
 }
 
-func TestC03(t *testing.T) { runSPValidate(t, "C03") }
+// the cross family (one deviation in each of addressing, request IDs and instants at once) is judged
+// once per property, each on its own clauses
+func TestC02Cross(t *testing.T) { runSPValidateFile(t, "C02", "xvectors.ndjson", "X") }
+func TestC03Cross(t *testing.T) { runSPValidateFile(t, "C03", "xvectors.ndjson", "X") }
+func TestC04Cross(t *testing.T) { runSPValidateFile(t, "C04", "xvectors.ndjson", "X") }
+func TestC03(t *testing.T)      { runSPValidate(t, "C03") }
 func TestC04(t *testing.T) { runSPValidate(t, "C04") }
 
 func spvReplay(prop string) replayFunc {
